@@ -1,19 +1,20 @@
 (* C42 — property theorems only.  Each is closed by `exact <lemma>` and followed by Print Assumptions. *)
 From Coq Require Import List NArith Bool Arith.
-From Verif.C42 Require Import Model Spec Proofs ProofsApply ProofsFinal ProofsIds ProofsSpec ProofsPin ProofsMaglev ProofsSched ProofsOracle ModelMg ProofsMg ProofsProj ProofsThree ProofsSched3 ProofsWrap Witness.
+From Verif.C42 Require Import Model Spec Proofs ProofsApply ProofsFinal ProofsIds ProofsSpec ProofsPin ProofsMaglev ProofsSched ProofsOracle ModelMg ProofsMg ProofsProj ProofsThree ProofsSched3 ProofsWrap ModelWrap ProofsWrap32 Witness.
 Import ListNotations.
 Open Scope N_scope.
 
-(* INVARIANT AFTER EACH SINGLE MAP WRITE.  For every history of applies (any services/endpoints, any Go map
+(* INVARIANT AFTER EACH SINGLE MAP WRITE, the two NAT maps (holds for either LUT phase order; the statement with the
+   Maglev LUT map included is c42_every_write_consistent below).  For every history of applies (any services/endpoints, any Go map
    iteration order `v`, any set of failing writes, any schedule `tr` of the single writes inside the phases) and
    restarts, from any Syncer state and any consistent dataplane (e.g. empty maps): every dataplane state passed
    through - one per single write - and the final one is consistent: every frontend's backend count refers only
    to backend entries that exist. *)
-Theorem c42_every_write_consistent : forall cfg ops sy d states sy' d',
+Theorem c42_every_write_consistent_nat_maps : forall cfg ops sy d states sy' d',
   consistent (fst d) (snd d) -> run_history cfg sy d ops = Some (states, sy', d') ->
   Forall (fun s => consistent (fst s) (snd s)) states /\ consistent (fst d') (snd d').
 Proof. exact history_consistent. Qed.
-Print Assumptions c42_every_write_consistent.
+Print Assumptions c42_every_write_consistent_nat_maps.
 
 (* the same for one Apply, with what the states are: the schedule executed write by write *)
 Theorem c42_apply_every_write_consistent : forall cfg sy d st v fF fB tr sy' d' err,
@@ -40,7 +41,8 @@ Theorem c42_completed_sync_is_desired : forall cfg sy d st v fF fB tr sy' d',
 Proof. exact completed_apply_is_desired. Qed.
 Print Assumptions c42_completed_sync_is_desired.
 
-(* FINAL EXACT, the part that holds for every history (partial: see the two items below).  After a completed sync,
+(* COMPLETED SYNC, UNIT LEVEL: what holds for every Syncer state, also one with duplicated ids (a lemma towards
+   c42_final_exact, which is the full statement).  After a completed sync,
    for every schedule: every frontend in the map is a frontend of one of the applySvc units (a service's own
    frontends: cluster IP, LB IPs, external IPs, node ports; or a per-remote-node node port) with that unit's id,
    ready-endpoint count, local count and affinity; every such frontend is present; every backend entry lies inside
@@ -50,7 +52,7 @@ Print Assumptions c42_completed_sync_is_desired.
    (c42_final_exact_refuted); it is proved for c_reset = true in c42_final_exact_units below; (b) the units' frontends are identified with Spec.spec_frontends in
    c42_frontends_exactly_requested / c42_requested_frontend_served below, and everything is put together in
    c42_final_exact. *)
-Theorem c42_final_exact_partial : forall cfg sy d st v fF fB tr sy' d',
+Theorem c42_completed_sync_units : forall cfg sy d st v fF fB tr sy' d',
   consistent (fst d) (snd d) -> exec_apply cfg sy d st v fF fB tr = Some (sy', d', false) ->
   exists next us,
     visit_all (sy_prev (if sy_synced sy then sy else startup (c_reset cfg) (c_npips cfg) sy (fst d) st))
@@ -65,7 +67,7 @@ Theorem c42_final_exact_partial : forall cfg sy d st v fF fB tr sy' d',
          exists e, nth_error (ready_local (u_eps u) ++ ready_remote (u_eps u)) (N.to_nat i) = Some e
                    /\ lookup pair_eqb (snd d') (u_id u, i) = Some (ep_addr e)).
 Proof. exact final_exact_partial. Qed.
-Print Assumptions c42_final_exact_partial.
+Print Assumptions c42_completed_sync_units.
 
 (* FINAL EXACT FOR EVERY HISTORY, for a Syncer that empties prevSvcMap at every startup sync (c_reset = true, the
    repaired tree): in every Syncer state reachable from a fresh Syncer by any history, distinct applySvc units get
@@ -202,16 +204,16 @@ Theorem c42_maglev_desired_consistent : forall npips lut lutf us,
 Proof. exact desired_mg_consistent. Qed.
 Print Assumptions c42_maglev_desired_consistent.
 
-(* (b) THE THREE-MAP MODEL (ModelMg.exec_apply3: six phases of single writes over frontend, backend and LUT map).
+(* (b) THE MAIN THEOREM: NEVER INCONSISTENT MID-UPDATE, ALL THREE MAPS.  THE THREE-MAP MODEL (ModelMg.exec_apply3: six phases of single writes over frontend, backend and LUT map).
    With the repaired order (frontend deletions; backend updates; LUT updates; frontend updates; LUT deletions; backend
    deletions - fixes/C42-maglev-lut-before-frontend-updates-deletions-after.patch) EVERY state passed through by EVERY
    history - one per single write to any of the three maps, any order inside the phases, any failing NAT-map writes,
    restarts, any consistent-hash table lutf - is consistent and maglev-consistent. *)
-Theorem c42_maglev_every_write_consistent : forall cfg lut lutf ops sy d states sy' d',
+Theorem c42_every_write_consistent : forall cfg lut lutf ops sy d states sy' d',
   inv3 lut d -> run_history3 cfg true lut lutf sy d ops = Some (states, sy', d') ->
   Forall (inv3 lut) states /\ inv3 lut d'.
 Proof. exact history3_repaired. Qed.
-Print Assumptions c42_maglev_every_write_consistent.
+Print Assumptions c42_every_write_consistent.
 
 (* the pinned order is refuted in the same model: an accepted history (annotation removed from a maglev service)
    passes through two states that are not maglev-consistent *)
@@ -328,12 +330,19 @@ Theorem c42_schedule_exists_three_maps : forall cfg b lut lutf ins sy d,
 Proof. exact schedule_exists3. Qed.
 Print Assumptions c42_schedule_exists_three_maps.
 
-(* uint32 nextSvcID (partial).  The code's counter is a uint32, the model's an unbounded N; they coincide while no
-   allocation wraps.  The model's counter grows by at most the number of applySvc units per Apply, and a startup sync
-   sets it at most one above the largest id present in the frontend map - so the "fewer than 2^32 ids" assumption is
-   the explicit arithmetic condition  next0 + (units of all applies) < 2^32.  Not done: a model WITH wrap-around (after
-   a wrap the code can hand out an id that is still in use; the code's own comment says "we may run out of IDs"). *)
-Theorem c42_id_counter_bounded_partial : forall cfg sy d st v fF fB tr sy' d' err,
+(* uint32 nextSvcID.  The code's id counter is a uint32, Model.v counts in N; ModelWrap.exec_apply32 repeats the id
+   assignment with the wrap-around (the checker uses it too: Check3.model32_agrees).
+   (a) The two models coincide as long as the counter after the Apply is below 2^32: *)
+Theorem c42_uint32_model_coincides : forall cfg sy d st v fF fB tr sy' d' err,
+  exec_apply cfg sy d st v fF fB tr = Some (sy', d', err) -> sy_next sy' < ID_MOD ->
+  exec_apply32 cfg sy d st v fF fB tr = Some (sy', d', err).
+Proof. exact exec_apply32_eq. Qed.
+Print Assumptions c42_uint32_model_coincides.
+
+(* (b) how fast the counter grows: by at most the number of applySvc units per Apply; a startup sync sets it at most
+   one above the largest id in the frontend map.  So every theorem above holds of the uint32 model for histories with
+   next0 + (units of all applies) < 2^32. *)
+Theorem c42_id_counter_growth : forall cfg sy d st v fF fB tr sy' d' err,
   exec_apply cfg sy d st v fF fB tr = Some (sy', d', err) ->
   exists next us,
     visit_all (sy_prev (if sy_synced sy then sy else startup (c_reset cfg) (c_npips cfg) sy (fst d) st))
@@ -341,10 +350,26 @@ Theorem c42_id_counter_bounded_partial : forall cfg sy d st v fF fB tr sy' d' er
     /\ sy_next sy' = next
     /\ next <= sy_next (if sy_synced sy then sy else startup (c_reset cfg) (c_npips cfg) sy (fst d) st) + N.of_nat (length us).
 Proof. exact apply_next_bound. Qed.
-Print Assumptions c42_id_counter_bounded_partial.
+Print Assumptions c42_id_counter_growth.
 
-Theorem c42_startup_counter_bounded_partial : forall reset npips sy fe st B,
+Theorem c42_startup_counter_bound : forall reset npips sy fe st B,
   sy_next sy <= B -> (forall k v, In (k, v) fe -> fv_id v + 1 <= B) ->
   sy_next (startup reset npips sy fe st) <= B.
 Proof. exact startup_next_bound. Qed.
-Print Assumptions c42_startup_counter_bounded_partial.
+Print Assumptions c42_startup_counter_bound.
+
+(* (c) FINDING (uint32 wrap): beyond that bound the full final-exact statement is false of the uint32 model and of the
+   code ("TODO we may run out of IDs unless we restart to recycle"): with the counter at 2^32-1 the next two new
+   services get 2^32-1 and 0 - the id a live service holds - and the completed sync lists a wrong endpoint.  The driver
+   replays it on the real Syncer (scripted history 4, counter set through a shim; model32 agrees, oracle rejects). *)
+Theorem c42_final_exact_uint32_wrap_refuted :
+  exists sy d sy' d',
+    exec_apply32 (Config [3232235521] true) new_syncer ([], []) wr_st0 [(0, [])] [] []
+      [WSetB (0,0) (167837953,8000); WSetF (FK 174063617 80 6) (FV 0 1 0 0 0)] = Some (sy, d, false)
+    /\ exec_apply32 (Config [3232235521] true) (SY 4294967295 (sy_prev sy) true) d wr_st1 [(0, []); (1, []); (2, [])] [] []
+         [WSetB (4294967295,0) (167837954,8000); WSetB (0,0) (167837955,8000); WSetB (0,1) (167837956,8000);
+          WSetF (FK 174063618 80 6) (FV 4294967295 1 0 0 0); WSetF (FK 174063619 80 6) (FV 0 2 0 0 0)] = Some (sy', d', false)
+    /\ sy_next sy' = 1
+    /\ state_wf [3232235521] wr_st1 && final_exactb [3232235521] wr_st1 (fst d') (snd d') = false.
+Proof. exact wrap_refuted. Qed.
+Print Assumptions c42_final_exact_uint32_wrap_refuted.
